@@ -1234,10 +1234,19 @@ class Sequential(Constraint):
         who = "Sequential"
         argcheck(who, factor, Factor, "factor")
         self.factor = factor
+        self.within_block = cast(Optional[BlockGeometry], None)
 
         # We could allow the levels to be specified, but then we have to check and
         # deal with weights on levels. Let's leave that until it seems to be needed,
         # since we can otherwise deal with desugared factors
+
+    def init_within_block(self, within_block: BlockGeometry) -> None:
+        if self.within_block is None:
+            self.within_block = within_block
+
+    def sustain_within_block(self, sustain_count: int) -> None:
+        if self.within_block:
+            self.within_block = self.within_block.sustain(sustain_count)
 
     def validate(self, block: Block) -> None:
         who = "Sequential"
@@ -1250,46 +1259,47 @@ class Sequential(Constraint):
 
     def desugar(self, replacements: dict) -> List[Constraint]:
         factor = replacements.get(self.factor, [self.factor, self.factor])[1]
-        return [Sequential(factor)]
+        ct = Sequential(factor)
+        ct.within_block = self.within_block
+        return [ct]
+
+    def __expected_levels(self, block: Block) -> List[Tuple[int, Any]]:
+        """Pairs of a trial index and the level expected there. The sequence of levels
+        starts over in each repetition of the block that the constraint was given to."""
+        sustain_count = block.sustain_count(self.factor)
+        preamble_size = block.factor_preamble_size(self.factor)
+        num_trials = block.trials_per_sample()
+        f = self.factor
+        starts = block.map_block_trial_ranges(self.within_block, lambda start, end: start)
+        expected = []
+        for n, start in enumerate(starts):
+            first = preamble_size + (start - starts[0])
+            stop = preamble_size + (starts[n+1] - starts[0]) if n+1 < len(starts) else num_trials
+            for i in range(first, stop, sustain_count):
+                expected.append((i, f.levels[((i - first) // sustain_count) % len(f.levels)]))
+        return expected
 
     def is_complex_for_combinatoric(self) -> bool:
         return True
 
     def apply(self, block: Block, backend_request: BackendRequest) -> None:
-        sustain_count = block.sustain_count(self.factor)
-        preamble_size = block.factor_preamble_size(self.factor)
-        num_trials = block.trials_per_sample()
         f = self.factor
-        
-        i = preamble_size
         ands = cast(List[Formula], [])
-        while i < num_trials:
-            # For each trial in the segment:
-            use_l = f.levels[((i - preamble_size) //sustain_count) % len(f.levels)]
+        for i, use_l in self.__expected_levels(block):
             for l in f.levels:
                 var = block.get_variable(i+1, (f, l))
                 if l is use_l:
                     ands.append(var)
                 else:
                     ands.append(Not(var))
-            i += sustain_count
         (cnf, new_fresh) = block.cnf_fn(And(ands), backend_request.fresh)
         backend_request.cnfs.append(cnf)
         backend_request.fresh = new_fresh
 
     def potential_sample_conforms(self, sample: dict, block: Block) -> bool:
-        sustain_count = block.sustain_count(self.factor)
-        preamble_size = block.factor_preamble_size(self.factor)
-        num_trials = block.trials_per_sample()
-        f = self.factor
-
-        i = preamble_size
-        while i < num_trials:
-            # For each trial in the segment:
-            use_l = f.levels[((i - preamble_size) // sustain_count) % len(f.levels)]
+        for i, use_l in self.__expected_levels(block):
             if not sample[self.factor][i] is use_l:
                 return False
-            i += sustain_count
 
         return True
 
